@@ -180,6 +180,11 @@ def same_instance(rep, rnd, payload):
     # dynamic facts with variables below the top level (shared renaming must stay private per use)
     eng.assert_fact('f0', [[Sym('f'), 'g', [Sym('v'), 40]]])
     eng.assert_fact('f0', [[Sym('f'), 'h', [Sym('a'), 'a'], [Sym('v'), 41]]])
+    eng.assert_fact('bk', [[Sym('f'), 'room', [Sym('i'), 1]], [Sym('v'), 42]])
+    eng.assert_fact('bk', [[Sym('f'), 'h', [Sym('a'), 'b'], [Sym('a'), 'c']], [Sym('f'), 'f', [Sym('v'), 43]]])
+    qs = qs + [('bk', [[Sym('f'), 'room', [Sym('i'), 1]], [Sym('a'), 'alice']]), ('bk', [[Sym('v'), 0], [Sym('v'), 1]]),
+               ('bk', [[Sym('v'), 0], [Sym('f'), 'f', [Sym('a'), 'bob']]])]
+    rnd.shuffle(qs)
     alone = []
     for k, (name, args) in enumerate(qs):
         args = rename_vars(args, 100 * (k + 1))
